@@ -109,6 +109,9 @@ func run1(c *core.Ctx, base string) int {
 
 	toRaw := func(ks []kase) []json.RawMessage {
 		out := make([]json.RawMessage, len(ks))
+		for i := range ks {
+			ks[i].Setup = rng.U64()
+		}
 		for i, k := range ks {
 			out[i] = core.J(k)
 		}
@@ -127,6 +130,7 @@ func run1(c *core.Ctx, base string) int {
 
 	// ---- evidence and self-checks -------------------------------------------
 	broken := agg.finish(quick)
+	c.Assume("the config under test is built in PRNG-chosen ways (guest path / or /data; derived from a writable config; two read-only guest paths) and, before instantiation, sibling configs overriding the same guest path (several spellings) are derived from it, from its ancestor and from the ModuleConfig carrying it, and discarded; a start-of-session probe tags everything found in a session whose mount is no longer what was configured with after-sibling-override")
 	c.Assume("atime is not compared (reads legitimately change it); directory st_size and st_nlink are not compared (names are)")
 	c.Assume("every file and directory of the tree has its mtime set to 2020-01-02 before the baseline snapshot, so any kernel-side write shows as an mtime/ctime change even if size and content end up equal")
 	c.Assume("the snapshot root also covers a sibling directory outside the mount that is reachable only through a symlink inside it")
@@ -215,6 +219,9 @@ func (a *agg) handle(cases []kase, rs []core.CaseResult) {
 			c.Count(key, n)
 			pm[key] += n
 		}
+		for _, so := range res.SiblingOps {
+			c.Distinct("sibling_derivations", so)
+		}
 		for _, fe := range res.FnErrno {
 			c.Distinct("fn_errno_pairs", k.Mount+":"+fe)
 		}
@@ -238,7 +245,7 @@ func (a *agg) handle(cases []kase, rs []core.CaseResult) {
 			a.set("seq_histories", k.Mount+"|"+k.Engine+"|"+res.Shape)
 		}
 		if len(res.Sample) > 0 && (r.Index%37 == 0) {
-			c.Sample(map[string]any{"kind": k.Kind, "mount": k.Mount, "engine": k.Engine, "calls": res.Sample})
+			c.Sample(map[string]any{"kind": k.Kind, "mount": k.Mount, "engine": k.Engine, "config_setup": res.SetupSample, "calls": res.Sample})
 		}
 		for sig, n := range res.SigCounts {
 			c.Count("violating_calls_total", n)
@@ -294,7 +301,8 @@ func (a *agg) finish(quick bool) (broken []string) {
 				broken = append(broken, fmt.Sprintf("%s never called on %s", fn, m))
 			}
 		}
-		for _, key := range []string{"fds_obtained", "followups_attempted", "dirfd_relative_attempted", "read_checks", "snapshots_compared"} {
+		for _, key := range []string{"fds_obtained", "followups_attempted", "dirfd_relative_attempted", "read_checks", "snapshots_compared",
+			"sessions_with_hostile_siblings", "sessions_without_siblings", "setup:siblings", "setup:reverse", "setup:nested"} {
 			if a.perMount[m][key] == 0 {
 				broken = append(broken, fmt.Sprintf("%s is 0 on %s", key, m))
 			}
